@@ -14,13 +14,12 @@ TECH = "bounded model checking (Kani/CBMC, SAT) of the real crates compiled from
 
 CLAIMS = {
     "C01": {
-        "text": ("Within the stated tree sizes the solver shows, for every tree shape/labelling, every start node and every verdict vector of a symbolic matcher, that "
-                 "FindAllNodes (kind prefilter + pre-order) reports exactly the matching nodes in document order, that the overlap-free visitor reports exactly the outermost "
-                 "matches, that All/Any kind sets are the intersection/union of their children's (so the kind gate never drops an accepted node), and that CombinedScan's "
-                 "dispatch table reports per rule exactly what the rule matches individually."),
-        "note": ("Bounds: trees <= 4 nodes (quick) / 5 (thorough), kinds 1..8 + ERROR on nodes. Matchers are stubs honouring the Matcher contract. Not covered: real grammars and "
-                 "texts; the CLI wiring of `sg run/scan` (walker, printers) and its literal-substring prefilter; rules whose kind set contains ERROR (65535) in CombinedScan "
-                 "(65536-step table growth loop out of reach)."),
+        "text": ("Claimed for one mechanism only -- the kind gate of composite matchers: the solver shows that the kind set cached by ops::All::new / ops::Any::new over three children "
+                 "with arbitrary advertised kind sets (symbolic masks over kind ids 1..8, or no set) is exactly the intersection (set-less children skipped) / the union (a set-less child "
+                 "makes the result None) of the children's sets, so the node-kind dispatch of FindAllNodes / CombinedScan can never drop a node that every (some) child would accept."),
+        "note": ("NOT covered (engine limits, DESIGN 3; harnesses kept in the lab tier): FindAllNodes / overlap-free Visitor / replace_all drivers themselves (ANY(4): > 40 min of symbolic "
+                 "execution), Pattern / Rule / ReferentRule / NthChild potential_kinds, CombinedScan's dispatch table, registration order of utils, and everything in the cli crate "
+                 "(`sg run/scan` wiring, literal-substring file prefilter). Children are stub matchers; bit sets have fixed capacity 16."),
     },
     "C02": {
         "text": ("For flat sibling lists of k <= 3 children with symbolic kinds/texts the solver shows that the pattern cut from the list (named children replaced by distinct "
@@ -45,11 +44,15 @@ CLAIMS = {
         "note": "Bounds: 3 children, names {A,B}, root + 2 leaves. Relational-rule candidates and utility constraints (config crate) are not covered by this check.",
     },
     "C05": {
-        "text": ("For every tree of <= 4 nodes (5 thorough), every target node and each of inside/has/precedes/follows x stopBy in {neighbor,end,rule} x field, the solver "
-                 "shows the real relational matchers agree with an independent evaluator written from the rule reference."),
-        "note": ("Rule values are built from parts through hook constructors (deserialize_rule is exercised by 4 thorough harnesses only). Leaf rules are `kind` tests. "
-                 "all/any/not are covered at the ops level (C01/C04 harnesses); nthChild's An+B under C20; regex/range not covered. Preconditions of the reference assumed: no "
-                 "zero-width nodes, a field labels at most one child."),
+        "text": ("Claimed for single-call kernels of the real matchers built from parts: the solver shows (a) NthChild (no ofRule) matches node X of any tree <= 4 nodes exactly when X is "
+                 "named, has a parent and its 1-based position among the parent's named children (from the end when `reverse`) is A*m+B for some m >= 0; (b) RangeMatcher matches exactly "
+                 "when the node's start and end equal the requested 0-based line / character column (multi-byte text); (c) Inside / Has / Follows / Precedes with goal `kind: number`, "
+                 "stopBy neighbor or end, and (inside, has) a field, match node X of any tree <= 4 nodes exactly when the reference quantification over ancestors / descendants / "
+                 "earlier / later siblings says so; (d) FunctionalPosition::is_matched(A,B,i) <=> exists n >= 0: i+1 = A*n+B."),
+        "note": ("NOT covered (engine limits, DESIGN 3; harnesses kept in the lab tier): stopBy with a stop *rule*, all/any/not, matches, regex, nthChild.ofRule, kind (trivial id compare) and the "
+                 "YAML/deserialize_rule half. Matcher values are built from parts through hook constructors and called once through match_node_with_env with an empty environment. "
+                 "Bounds: ANY(4) with symbolic shape, kinds in {ident, number, comment}, named bits / field labels; A in [-2,2], B in [-2,4]; a 9-byte text with 2- and 4-byte characters and "
+                 "symbolic line breaks. Precondition of the reference assumed: a field labels at most one child of a node."),
     },
     "C06": {
         "text": ("The solver shows that Node::replace_all yields ordered, pairwise disjoint, in-bounds edits equal to [match start, start + match_len) for every tree <= 4 nodes "
@@ -123,14 +126,14 @@ NOT_YET = {}
 
 # properties currently claimed (their quick tier is measured to pass on the unchanged tree within
 # the time budget); the others fall back to NOT_APPLICABLE / UNCLAIMED_REASONS
-CLAIMED_NOW = ["C03", "C07", "C10", "C11", "C16", "C19", "C20"]
+CLAIMED_NOW = ["C01", "C03", "C05", "C07", "C10", "C11", "C16", "C19", "C20"]
 
 UNCLAIMED_REASONS = {
-    "C01": "Library search drivers: harnesses exist (shape-enumerated FindAllNodes / overlap-free Visitor / kind-set algebra) but do not finish within the quick budget on this machine (DESIGN 3); CLI wiring is not reachable.",
+    "C01": "Library search drivers: harnesses exist (FindAllNodes / overlap-free Visitor on ANY(4) and per shape, kind-set algebra, CombinedScan dispatch) but none finishes: FindAllNodes on ANY(4) was still in symbolic execution after 42 min (DESIGN 3). The CLI wiring and the literal-substring prefilter are in the cli crate and not reachable.",
     "C02": "The sibling-alignment engine (match_nodes_impl_recursive + MetaVarEnv) could not be decided by Kani/CBMC within 25 min / 30 GB even for one goal vs one candidate (DESIGN 3); harnesses and natively validated oracle are kept (c02_cut.rs).",
     "C04": "Everything through MetaVarEnv (heap maps of String -> Node) exhausts the SAT back end (30 GB in propositional reduction) or symex time (DESIGN 3); harnesses kept (c04_ops.rs, c04_insert.rs).",
     "C05": "Relational rules through Rule/RuleCore: 13-way dispatch + heap objects; > 20 min symex then 30 GB in array post-processing even with matcher structs on the stack and enumerated shapes (DESIGN 3); harnesses and oracle kept (c05_rel.rs).",
-    "C06": "replace_all harnesses exist (c01_search.rs) but do not finish within the quick budget; Fixer expansions / rewrite transformation need MetaVarEnv + RuleCore (DESIGN 3); CLI splice not reachable.",
+    "C06": "replace_all harnesses exist (c01_search.rs) but do not finish (ANY(4): > 28 min of symbolic execution); Fixer expansions / rewrite transformation need MetaVarEnv + RuleCore (DESIGN 3); CLI splice not reachable.",
     "C12": "get_matcher / Fixer::parse / check_var: String- and heap-heavy config code; the 2-byte template `$T` alone needs 25 min then runs out of memory (DESIGN 3); harnesses kept (c12_*.rs, c13_utils.rs).",
-    "C14": "parse_suppression_set uses str::split_once with a 15-byte needle on symbolic text (> 15 min per 1-byte tail); CombinedScan::scan > 37 min (DESIGN 3); harness and natively validated oracle kept (c14_scan.rs, small_kernels.rs).",
+    "C14": "parse_suppression_set uses str::split_once with a 15-byte needle on symbolic text (> 15 min per 1-byte tail); CombinedScan::scan > 37 min; the suppression-table kernel (hook suppression_verdict) makes Kani 0.68 report spurious memory failures even on a fully concrete input (DESIGN 3), so nothing it says can be believed. Harnesses and natively validated oracles kept (c14_scan.rs, c14_table.rs, small_kernels.rs); they exposed defects D4 and D10 (DESIGN 5), confirmed on the CLI.",
 }
